@@ -12,6 +12,7 @@ import (
 	"github.com/canopy-network/canopy/fsm"
 	"github.com/canopy-network/canopy/lib"
 	"github.com/canopy-network/canopy/lib/crypto"
+	"github.com/canopy-network/canopy/store"
 )
 
 // Op is one ledger operation of a script (the action vocabulary of specs/Ledger.tla)
@@ -97,6 +98,7 @@ func ledgerGenesis(big64, empty bool) GenesisSpec {
 }
 
 func newLedgerSim(run int, out *json.Encoder, big64, empty bool) (*ledgerSim, error) {
+	store.VerifPurgeBlockCache() // process-wide, keyed by height: a new chain must not see the previous one's blocks
 	n, err := newNode(ledgerGenesis(big64, empty), 0)
 	if err != nil {
 		return nil, err
